@@ -116,7 +116,7 @@ func runC04(c *Ctx) {
 	roleOf := func(r map[string]bool) (string, []string) {
 		switch {
 		case r["Shortcut"]:
-			return "shortcut", []string{"*"}
+			return "shortcut", []string{"URLLowerCase"} // handed the request (and reading that field), or that field itself
 		case r["regex"] || r["pattern"]:
 			return "pattern", []string{"*"}
 		case r["denyAllowDomains"]:
